@@ -98,6 +98,33 @@ def run(tier, seed):
     lines = uniq
     if not lines:
         raise MachineryError("C08: no request generated")
+    # format sweeps: EVERY modes x ordering combination of both tensors for the order-3 copy and one order-3 transpose,
+    # and of all three tensors for matrix multiplication (the quantifier "every format" taken literally for the shapes
+    # where it is affordable); allowed outcomes by the same rule as Problems.tla (no diagonal, no broadcast target)
+    import itertools
+
+    from .. import kernels as _k
+
+    sweeps = [("a(i,j,k) = b(i,j,k)", ["a", "b"]), ("a(i,j,k) = b(k,i,j)", ["a", "b"])]
+    if tier == "thorough":
+        sweeps += [("a(i,j,k) = b(j,k,i)", ["a", "b"]), ("a(i,j,k) = b(i,j,k) + c(i,j,k)", ["a", "b", "c"])]
+    sweeps_small = [("a(i,k) = b(i,j) * c(j,k)", ["a", "b", "c"]), ("a(i,j) = b(i,j) + c(j,i)", ["a", "b", "c"]),
+                    ("a(i) = b(i,j) * c(j)", ["a", "b", "c"])]
+    n_sweep = 0
+    for text, names in sweeps + sweeps_small:
+        orders = {"a": text.split("=")[0].count(",") + 1}
+        from .. import exprs as _e
+
+        od = _e.tensor_orders(_e.parse(text))
+        combos = itertools.product(*[_k.all_formats(od[n]) for n in names])
+        if len(names) == 3 and od["a"] == 3:
+            combos = itertools.islice(combos, 0, 20000, 7)
+        for ci, combo in enumerate(combos):
+            lines.append({"text": text, "formats": [[n, f] for n, f in zip(names, combo)],
+                          "kinds": [["evaluate"], ["compute"], ["assemble"]][ci % 3], "lang": "c" if ci % 4 else "llvm",
+                          "entry": "library", "allowed": ["Code", "NoKernelFoundError"], "diagonal": False, "broadcast": False,
+                          "leaves": 1, "sweep": True})
+            n_sweep += 1
     cases = []
     for i, l in enumerate(lines):
         cases.append({"cid": i, "text": l["text"], "formats": [list(x) for x in l["formats"]], "kinds": sorted(l["kinds"]),
@@ -137,7 +164,7 @@ def run(tier, seed):
                    "non-trivial = code was generated (and accepted by its tool chain).",
            "samples": [{"request": l, "event": {k: v for k, v in outcomes.get(i, {}).items() if k != "code"}}
                        for i, l in enumerate(lines[:400:100])],
-           "outcome_histogram": hist, "exhaustive_requests": exhaustive_part, "exhaustive": False, "limit_s": LIMIT_S}
+           "outcome_histogram": hist, "exhaustive_requests": exhaustive_part, "format_sweep_requests": n_sweep, "exhaustive": False, "limit_s": LIMIT_S}
     from .. import structure_conf
 
     sv, sr, sn = structure_conf.check_orders(tier)
